@@ -634,6 +634,8 @@ def mon_C08(stream, case, obs):
     now = 0
     last_tx = {}          # conn -> time of last accepted byte
     ping_at = None        # time the outstanding PINGREQ was written (current connection)
+    ping_on_wire = False
+    odd_broker = False
     prev_ping = "0"
     established = False
     cur = 0
@@ -663,11 +665,20 @@ def mon_C08(stream, case, obs):
         if cur != sock_before:
             ping_at = None
             established = False
+            ping_on_wire = False
+            odd_broker = False
+        if wrote_ping:
+            ping_on_wire = True
         if t[0] == "rx" and t[1] == "connack" and t[3] == "0" and cur and cur == sock_before and p.get("st") == "connected":
             established = True
         if t[0] == "rx" and t[1] == "pingresp" and sock_before and cur == sock_before:
+            if ping_at is None or not ping_on_wire:
+                # a PINGRESP for a PINGREQ that has not left the client yet (or for none at all): the broker of this
+                # run does not conform; keep-alive behaviour on this connection is not judged any further
+                odd_broker = True
             ping_at = None
-        if K > 0 and t[0] == "loop_misc" and sock_before:
+            ping_on_wire = False
+        if K > 0 and t[0] == "loop_misc" and sock_before and not odd_broker:
             ping_at_now, ping_at = ping_at, ping_before
             established_now, established = established, est_before
             idle = now - last_tx.get(sock_before, now)
